@@ -88,7 +88,21 @@ impl Serialize for Number {
             map.serialize_entry("val", &self.value)?;
             map.serialize_entry("unit", unit.symbol())?;
             map.end()
-        } else if self.value.fract() == 0.0 {
+        } else if !self.value.is_finite() {
+            // JSON has no literal for the special values, Hayson spells them as strings
+            let mut map = serializer.serialize_map(Some(2))?;
+            map.serialize_entry("_kind", "number")?;
+            let val = if self.value.is_nan() {
+                "NaN"
+            } else if self.value > 0.0 {
+                "INF"
+            } else {
+                "-INF"
+            };
+            map.serialize_entry("val", val)?;
+            map.end()
+        } else if self.value.fract() == 0.0 && self.value.abs() < 9007199254740992.0 {
+            // Integral values that an i64 holds exactly
             serializer.serialize_i64(self.value as i64)
         } else {
             serializer.serialize_f64(self.value)
